@@ -124,9 +124,27 @@ def table_lookup_exact(F, const_path):
                 rty = (Hh.strip(y["recv"]).get("ty") or "").replace("&", "").replace("mut ", "").replace("'static ", "").strip()
                 if rty in ("str", "std::string::String", "String"):
                     found.append(y["name"])
+        # a bisection of the (sorted) table compares whole names as well: `binary_search(&name)`, `binary_search_by_key(&name, |row| row.0)`,
+        # `binary_search_by(|row| row.0.cmp(name))` — exact where the rows are in ascending order of the name (an obligation of its own)
+        for y in Hh.exprs(nb["value"]):
+            if y.get("k") == "MethodCall" and str(y["name"]).startswith("binary_search"):
+                by = y["name"]
+                if by == "binary_search_by":
+                    clo = Hh.strip(y["args"][0]) if y["args"] else {}
+                    body = Hh.strip(clo["body"]["value"]) if clo.get("k") == "Closure" else {}
+                    while body.get("k") == "Block" and not body["b"]["stmts"] and body["b"].get("tail"):
+                        body = Hh.strip(body["b"]["tail"])
+                    if not (body.get("k") == "MethodCall" and body["name"] == "cmp"):
+                        found.append("binary_search_by with a comparison that is not `cmp` of the names")
+                        continue
+                BISECTED.add(const_path)
+                eq = True
         if not eq and not found:
             found.append("no equality comparison")
     return (not found), found
+
+
+BISECTED = set()
 
 
 def _pat_literals(p):
@@ -231,6 +249,14 @@ def rule_builtins(ck, F, X, rule="R1", want=BUILTINS):
         ok_, what = table_lookup_exact(F, fall)
         if ok_:
             ck.ok(rule, "lookup-exact", site, "the builtin table is searched by exact name")
+            if fall in BISECTED:
+                names = list(table)
+                if names == sorted(names) and len(set(names)) == len(names):
+                    ck.ok(rule, "table-sorted", site, "the builtin table is searched by bisection and its rows are in ascending (byte) order of the name")
+                else:
+                    bad = next((b_ for a_, b_ in zip(names, names[1:]) if not a_ < b_), "?")
+                    ck.violation(rule, "table-sorted", site, f"the builtin table is searched by bisection but is not sorted (at `{bad}`): rows behind the misplaced "
+                                 f"one are not found and those builtins become user types")
         else:
             ck.violation(rule, "lookup-exact", site, f"the builtin table is not searched by exact name ({sorted(set(what))}): a schema type whose name differs "
                          f"from a builtin only by that (case, prefix, surrounding text) is mapped to the builtin's Rust type instead of its own struct")
